@@ -424,6 +424,26 @@ def path_text(path, limit=12):
     return out
 
 
+def node_exprs(n):
+    """AST fragments a CFG node evaluates itself (headers only for compound
+    statements; nested function/class bodies are never included)."""
+    a = n.ast
+    if a is None:
+        return []
+    k = n.kind
+    if k in ("stmt", "return", "raise_stmt", "test", "iter_init"):
+        if isinstance(a, (ast.FunctionDef, ast.AsyncFunctionDef, ast.ClassDef)):
+            return list(a.decorator_list)
+        return [a]
+    if k == "with_enter":
+        return [i.context_expr for i in a.items]
+    if k == "for":
+        return [a.target]
+    if k == "assert_fail":
+        return [a.msg] if a.msg is not None else []
+    return []
+
+
 _cfg_cache = {}
 
 
